@@ -42,7 +42,7 @@ def execute(mod, scn, prefix, want_traces=False):
             kw = dict(kw)
             plan = dict(kw.pop('plan', {}) or {})
             child_sock = pairs[i][1]
-            plan.update({'sched_fd': child_sock.fileno(), 'shared': shared, 'resolve': 'all', 'budget': 3000})
+            plan.update({'sched_fd': child_sock.fileno(), 'shared': shared, 'resolve': 'all', 'budget': 3000, 'pid': 5000 + i})
             closefds = [p[0].fileno() for p in pairs] + [p[1].fileno() for j, p in enumerate(pairs) if j != i]
             pid, fl = sb.spawn(kw.pop('argv'), plan=plan, close_fds=closefds, **kw)
             pids.append(pid)
@@ -207,6 +207,10 @@ def search(mod, scn, bound=None, cap=300000):
                 nxt.append(p + [e])
         if stats['states'] > cap:
             stats['capped'] = True
+            break
+        if viols:
+            # shortest counterexamples found at this depth; deeper levels of a broken tree add nothing
+            stats['stopped_at_first_violation_depth'] = max(len(p) for p in frontier)
             break
         frontier = nxt
     stats['samples'] = sample_terms
